@@ -13,9 +13,11 @@
   theorems show that the fuel handed over by `parse` always suffices.
 
   The model mirrors the control flow of the repaired sources (fixes/xml/*.patch):
-  rewind behind the last comment / after a failed look-ahead in the content loop, line
-  breaks inside a processing instruction left to `skipSpace`, `&#10;`/`&#13;` for line
-  breaks in attribute values.
+  rewind behind the last comment / after a failed look-ahead in the content loop, a
+  processing instruction before the root runs to its first `?>` — line breaks inside it are
+  counted by its own loop, which never calls `skipSpace` (so `<!--` inside an instruction is
+  just bytes: `<?a ?<!--?><r/>` is accepted) —, `&#10;`/`&#13;` for line breaks in attribute
+  values.
 -/
 namespace Nstd.Xml
 
@@ -357,7 +359,10 @@ end
 
 def isPiScanStop (b : UInt8) : Bool := b == 13 || b == 10 || b == 63
 
-/-- inner loop over one processing instruction; `sp` = position of its `<?` -/
+/-- inner loop over one processing instruction; `sp` = position of its `<?`.
+    Runs to the first `?>`; a lone `?` is stepped over, a line break (`\r\n`, `\r`, `\n`) is counted
+    by the loop itself — `skipSpace` is not called inside the instruction (fixes/xml/0005), so
+    neither white space nor `<!--` means anything there. -/
 def piInner (t : Bytes) : Nat → Pos → Pos → Res Pos
   | 0, _, _ => .fuel
   | f + 1, sp, p =>
@@ -370,8 +375,12 @@ def piInner (t : Bytes) : Nat → Pos → Pos → Res Pos
       if c = 63 then
         (peek t (e + 1)).bind fun d =>
           if d = 62 then .ok ⟨p.line, e + 2, p.ls⟩
-          else (skipSpace t ⟨p.line, e + 1, p.ls⟩).bind fun q => piInner t f sp q.1
-      else (skipSpace t ⟨p.line, e, p.ls⟩).bind fun q => piInner t f sp q.1
+          else piInner t f sp ⟨p.line, e + 1, p.ls⟩
+      else if c = 13 then
+        (peek t (e + 1)).bind fun d =>
+          let q := if d = 10 then e + 2 else e + 1
+          piInner t f sp ⟨p.line + 1, q, q⟩
+      else piInner t f sp ⟨p.line + 1, e + 1, e + 1⟩
 
 /-- `while(*pos.pos == '<' && pos.pos[1] == '?')` of `parse` -/
 def piLoop (t : Bytes) : Nat → Pos → Res Pos
